@@ -1,5 +1,6 @@
 import Proofs.C10.FinMulti
 import Proofs.C10.Wrapped
+import Proofs.C10.MultiA
 import Proofs.C10.ExampleKey
 import Proofs.C10.ExampleEcdsa
 import Proofs.C10.Checker
@@ -127,7 +128,7 @@ theorem closure_p2pkh (vk : Bytes → Bool) (env : VerifyEnv) (h sig pk : Bytes)
 
 /-- the FindAndDelete fact itself: on a p2pkh script code nothing is found unless the signature IS the hash -/
 theorem find_and_delete_p2pkh (h sig : Bytes) (hl : h.length = 20) (hs : sig.length < 76) (hne : sig ≠ h) :
-    findAndDelete (p2pkh h) (pushData sig) = (p2pkh h, 0) :=
+    Core.findAndDelete (p2pkh h) (pushData sig) = (p2pkh h, 0) :=
   findAndDelete_pkh h sig hl hs hne
 
 /-- T1 (p2wpkh).  For every verification environment whose flags include WITNESS -- any of btclib's default set
@@ -1041,9 +1042,10 @@ theorem closure_sh_pkh_secp256k1 (vk : Bytes → Bool) (flags : Nat) (cx : TxCtx
 
 `Model/C10/Bip322.lean` mirrors `bip322.py: message_hash, to_spend, to_sign` (both txids and the engine run are compared
 with btclib by the `c10.bip322.model` stream); `verifySimple` is the engine run of `assert_as_valid` on the `to_sign` built
-from THIS message and THIS script.  Sign-then-verify is then the template closure applied to `to_sign`.  Not proved: the
-p2pkh / p2sh-p2wpkh address kinds (full-variant payload), the address -> script map (C06), BMS (C02 owns its theorems),
-and that another message / address does NOT verify (unforgeability, assumed). -/
+from THIS message and THIS script.  Sign-then-verify is then the template closure applied to `to_sign`.  All four address kinds
+`bip322.sign` serves are covered (p2wpkh, p2tr, p2pkh, p2sh-p2wpkh).  Not proved: the address -> script map (C06),
+proof-of-funds, BMS (C02's `bms_sign_then_verify` owns it, address classes included), and that another message / address
+does NOT verify (unforgeability, assumed). -/
 
 /-- BIP322 simple, p2wpkh address, on the executed instance: the witness the signer makes over the BIP143 digest of
     `to_sign(to_spend(msg, 0 <h>))` verifies for that message and address under every flag set with WITNESS. -/
@@ -1075,9 +1077,124 @@ theorem bip322_simple_p2tr_secp256k1 (flags : Nat) (msg prog : Bytes) (ht : Nat)
       .ok () :=
   Bip322.simple_p2tr_secp256k1 flags msg prog ht hht hq hW hnz hdef fuel q aux sg hsign sig64 hser hpk
 
+/-- BIP322, p2pkh address (the payload is a whole `to_sign` with the simple variant's fields: version / lock time /
+    sequence 0), on the executed instance: scriptSig `<sig> <pk>`; the legacy digest does not read the scriptSig
+    (`Bip322.legacyDigest_scriptSig`), so the signer signs `to_sign` with an empty one. -/
+theorem bip322_p2pkh_secp256k1 (flags : Nat) (msg h pk : Bytes) (ht : Nat) (hht : ht < 256)
+    {q k r s kid : Int} (hl : h.length = 20)
+    (hh : ripemd160 (sha256 pk) = h) (hpk : isCompressedPubKey pk = true)
+    (hp : secpParsePub pk = some ((EC.ops EC.secp256k1).mul q EC.secp256k1.G)) (hk : 0 < k ∧ k < EC.secp256k1.n)
+    (hsign : Ecdsa.signRecoverable (EC.ops EC.secp256k1)
+      (Rfc6979.challenge EC.secp256k1.n
+        (engineEcdsaDigest secpCrypto (Bip322.signCtx secpCrypto msg (p2pkh h)) (p2pkh h) .BASE ht)) q k true =
+        .ok (r, s, kid))
+    (der : Bytes) (hder : Der.serialize r s = .ok der) (hmax : der.length ≤ Gen.VarInt.MAX_SIZE)
+    (henc : checkSignatureEncoding flags (der ++ [UInt8.ofNat ht]) = .ok ())
+    (hs2 : 2 ≤ (der ++ [UInt8.ofNat ht]).length) (hs : (der ++ [UInt8.ofNat ht]).length < 76)
+    (hne : der ++ [UInt8.ofNat ht] ≠ h) :
+    Bip322.verifySimple secpCrypto flags msg (p2pkh h) (pushData (der ++ [UInt8.ofNat ht]) ++ pushData pk) [] = .ok () :=
+  Bip322.simple_p2pkh_secp256k1 flags msg h pk ht hht hl hh hpk hp hk hsign der hder hmax henc hs2 hs hne
+
+/-- BIP322, p2sh-p2wpkh address, on the executed instance: scriptSig = push of `0 <h>`, witness `[sig, pk]`. -/
+theorem bip322_p2sh_p2wpkh_secp256k1 (flags : Nat) (msg h hr pk : Bytes) (ht : Nat) (hht : ht < 256)
+    {q k r s kid : Int} (hl : h.length = 20) (hrl : hr.length = 20)
+    (hP : has flags FLAG_P2SH = true) (hW : has flags FLAG_WITNESS = true) (hnz : castToBool h = true)
+    (hhr : ripemd160 (sha256 (p2wpkh h)) = hr)
+    (hh : ripemd160 (sha256 pk) = h) (hpk : isCompressedPubKey pk = true)
+    (hp : secpParsePub pk = some ((EC.ops EC.secp256k1).mul q EC.secp256k1.G)) (hk : 0 < k ∧ k < EC.secp256k1.n)
+    (hsign : Ecdsa.signRecoverable (EC.ops EC.secp256k1)
+      (Rfc6979.challenge EC.secp256k1.n
+        (engineEcdsaDigest secpCrypto (Bip322.signCtx secpCrypto msg (p2sh hr)) (p2pkh h) .WITNESS_V0 ht)) q k true =
+        .ok (r, s, kid))
+    (der : Bytes) (hder : Der.serialize r s = .ok der) (hmax : der.length ≤ Gen.VarInt.MAX_SIZE)
+    (henc : checkSignatureEncoding flags (der ++ [UInt8.ofNat ht]) = .ok ())
+    (hslen : (der ++ [UInt8.ofNat ht]).length ≤ 520) :
+    Bip322.verifySimple secpCrypto flags msg (p2sh hr) (pushData (p2wpkh h)) [der ++ [UInt8.ofNat ht], pk] = .ok () :=
+  Bip322.simple_p2sh_p2wpkh_secp256k1 flags msg h hr pk ht hht hl hrl hP hW hnz hhr hh hpk hp hk hsign der hder hmax henc
+    hslen
+
 -- the model's to_spend / to_sign on a concrete message: version 0, null outpoint, OP_0 PUSH32 in the scriptSig, OP_RETURN
 example : (Bip322.toSpend taggedHash [1, 2] [0x51]).vin.map (·.prev.vout) = [0xFFFFFFFF] ∧
     (Bip322.toSign hash256 (Bip322.toSpend taggedHash [1, 2] [0x51]) []).vout = [⟨0, [0x6a]⟩] := by decide
+
+/-! ### taproot script path with a `multi_a(k, keys…)` leaf (BIP387)
+
+`Model/C10/MultiA.lean` mirrors `descriptors.py: MultiA._script` (the tapscript) and `MultiA._stack` (the satisfaction the
+library lays out: one element per key, REVERSE key order on the wire, `k` signatures, empty vectors for the others).  The
+closure is about C08's `verifyScript`: CHECKSIG, the CHECKSIGADD chain by induction over the key list (for ALL key lists,
+`1 ≤ n ≤ 999`), `OP_k NUMEQUAL`, BIP342's validation-weight budget (50 per signature, proved covered by the witness size),
+OP_SUCCESS scan, stack limits.  Threshold `1 ≤ k ≤ 16` (the `OP_k` spelling; the number-push spelling for k > 16 is NOT
+proved).  `verify_tr_script_of` (Proofs/C10/MultiA.lean) is the generic wrapper: any tapscript leaf `ExecuteWitnessScript`
+accepts. -/
+
+/-- the satisfaction `MultiA._stack` builds, as (key, element) pairs in key order: `multiAStack` is its reverse -/
+theorem multiAStack_wire (k : Nat) (offered : List (Option Bytes)) (w : List Bytes)
+    (h : multiAStack k offered = some w) : w = (multiAFill k 0 offered).reverse := by
+  unfold multiAStack at h
+  split at h
+  · cases h
+  · exact (Option.some.inj h).symm
+
+/-- T1 (taproot script path, `multi_a` leaf).  For every flag set with WITNESS: witness `elements in reverse key order ‖
+    [leaf, control]` is accepted, given `ps` = (x-only key, element) in key order with every element either empty or a
+    signature (50..520 bytes; BIP340's are 64 / 65) the Schnorr oracle accepts for ITS key under BIP342's message,
+    exactly `k` of them non-empty, and the C12 commitment check for this leaf. -/
+theorem closure_taproot_multi_a (env : VerifyEnv) (q control : Bytes) (m k : Nat) (ps : List (Bytes × Bytes))
+    (hq : q.length = 32) (hW : has env.flags FLAG_WITNESS = true) (hnz : castToBool q = true)
+    (hcl : control.length = 33 + 32 * m) (hm : m ≤ 128) (hv : getB control 0 / 2 * 2 = 0xc0)
+    (hk : 1 ≤ k ∧ k ≤ 16) (hn : 1 ≤ ps.length) (hn999 : ps.length ≤ 999)
+    (hp : ∀ p ∈ ps, p.1.length = 32 ∧ ElemOk env.checker p.1 p.2)
+    (hsl : ∀ p ∈ ps, p.2 = [] ∨ (50 ≤ p.2.length ∧ p.2.length ≤ 520)) (hcnt : cntOf ps = k)
+    (hcom : env.commitment control q (env.taggedHash "TapLeaf".toUTF8.toList
+      (UInt8.ofNat 0xc0 :: (Core.compactSize (multiAScript k (ps.map (·.1))).length ++ multiAScript k (ps.map (·.1))))) =
+        .ok true) :
+    verifyScript env [] (p2tr q) ((ps.map (·.2)).reverse ++ [multiAScript k (ps.map (·.1)), control]) = .ok () :=
+  verify_tr_multi_a env q control m k ps hq hW hnz hcl hm hv hk hn hn999 hp hsl hcnt hcom
+
+/-- an element of a `multi_a` satisfaction made with `Btc.EC.ops secp256k1`: the empty vector, or `ssa.sign_` by the key
+    whose x-only octets are `key` over BIP342's message of THIS input (+ hash-type byte unless DEFAULT) -/
+def TapElemSecp (cx : TxCtx) (key e : Bytes) : Prop :=
+  e = [] ∨ ∃ (ht fuel : Nat) (q : Int) (aux : Bytes) (sg : Schnorr.Sig) (sig64 : Bytes), ht < 256 ∧
+    bip341Defined cx.tx cx.nIn cx.spent ht = true ∧
+    Schnorr.sign (EC.ops EC.secp256k1) bip340Params fuel (engineTapDigest secpCrypto cx .TAPSCRIPT ht 0xFFFFFFFF) q aux =
+      .ok sg ∧
+    Schnorr.serialize (EC.ops EC.secp256k1) bip340Params sg = .ok sig64 ∧
+    ((ofBE key : Nat) : Int) = (EC.ops EC.secp256k1).x ((EC.ops EC.secp256k1).mul q EC.secp256k1.G) ∧
+    e = sig64 ++ (if ht = 0 then [] else [UInt8.ofNat ht])
+
+/-- **T1 end to end on secp256k1 (taproot script path, `multi_a` leaf)**: every non-empty element MADE by its key. -/
+theorem closure_taproot_multi_a_secp256k1 (flags : Nat) (cx : TxCtx) (prog control : Bytes) (m k : Nat)
+    (ps : List (Bytes × Bytes))
+    (hq : prog.length = 32) (hW : has flags FLAG_WITNESS = true) (hnz : castToBool prog = true)
+    (hcl : control.length = 33 + 32 * m) (hm : m ≤ 128) (hv : getB control 0 / 2 * 2 = 0xc0)
+    (hk : 1 ≤ k ∧ k ≤ 16) (hn : 1 ≤ ps.length) (hn999 : ps.length ≤ 999)
+    (hp : ∀ p ∈ ps, p.1.length = 32 ∧ TapElemSecp cx p.1 p.2) (hcnt : cntOf ps = k)
+    (hcom : commitment secpCrypto control prog (taggedHash "TapLeaf".toUTF8.toList
+      (UInt8.ofNat 0xc0 :: (Core.compactSize (multiAScript k (ps.map (·.1))).length ++ multiAScript k (ps.map (·.1))))) =
+        .ok true) :
+    verifyScript (envOf secpCrypto flags cx) [] (p2tr prog)
+      ((ps.map (·.2)).reverse ++ [multiAScript k (ps.map (·.1)), control]) = .ok () := by
+  have key : ∀ p ∈ ps, ElemOk (envOf secpCrypto flags cx).checker p.1 p.2 ∧
+      (p.2 = [] ∨ (50 ≤ p.2.length ∧ p.2.length ≤ 520)) := by
+    intro p hp'
+    rcases (hp p hp').2 with e | ⟨ht, fuel, q, aux, sg, sig64, hht, hdef, hsign, hser, hpk, e⟩
+    · exact ⟨Or.inl e, Or.inl e⟩
+    · have h64 := Spend.serialize_length secpCrypto rfl rfl sg sig64 hser
+      have hlen : 64 ≤ p.2.length ∧ p.2.length ≤ 65 := by
+        rw [e]; split <;> simp [h64]
+      have hne : p.2.isEmpty = false := by
+        cases hh : p.2 with
+        | nil => rw [hh] at hlen; simp at hlen
+        | cons _ _ => rfl
+      refine ⟨Or.inr ⟨hne, ?_⟩, Or.inr ⟨by omega, by omega⟩⟩
+      rw [e]
+      exact Btc.E2E.sign_passes_checkSchnorr_secp256k1 cx .TAPSCRIPT ht _ hht hdef fuel q aux sg hsign sig64 hser p.1 hpk
+  exact closure_taproot_multi_a (envOf secpCrypto flags cx) prog control m k ps hq hW hnz hcl hm hv hk hn hn999
+    (fun p hp' => ⟨(hp p hp').1, (key p hp').1⟩) (fun p hp' => (key p hp').2) hcnt hcom
+
+-- the model's `MultiA._stack` on a 2-of-3 where all three keys offer: the third is dropped, wire order is reversed
+example : multiAStack 2 [some [1], some [2], some [3]] = some [[], [2], [1]] := by decide
+example : multiAStack 2 [none, some [2], none] = none := by decide
 
 /-! ## T2 — tampering changes the message (or exhibits a collision) -/
 
